@@ -78,10 +78,18 @@ def rand_design(rng, profile='small', nops=None, nin=None, ops=None, nregs=None,
     def nm(base):
         if name_style == 'plain' or rng.random() < 0.6:
             return base
-        k = rng.randrange(12 if name_style in ('verilog', 'verilog-nospace') else 15)
-        cand = [base + (' x' if name_style != 'verilog-nospace' else '~x'), base + '[0]', '9' + base, None, base + '$', '$' + base, 'L' * 1025 + base,
-                '\u00e9' + base, base + '.q', base + '-1', base + '__', 'Tmp' + base,
-                '_ver_out_tmp_%d' % rng.randrange(3), 'tb_iter', 'block'][k]
+        pykw = ['in', 'is', 'or', 'not', 'lambda', 'pass', 'del', 'None', 'class', 'from']
+        cands = [base + (' x' if name_style != 'verilog-nospace' else '~x'), base + '[0]', '9' + base, None, base + '$', '$' + base,
+                 'L' * 1025 + base, '\u00e9' + base, base + '.q', base + '-1', base + '__', 'Tmp' + base,
+                 # two-digit vs one-digit indices (text order != numeric order), non-ASCII inside an ASCII-initial name,
+                 # Python keywords (legal Verilog, illegal as Python identifiers)
+                 'v[10]' + base, 'v[9]' + base, base + '\u00e9', 'PYKW']
+        if name_style not in ('verilog', 'verilog-nospace'):
+            cands += ['_ver_out_tmp_%d' % rng.randrange(3), 'tb_iter', 'block']
+        cand = rng.choice(cands)
+        if cand == 'PYKW':
+            free = [r for r in pykw if r not in used_names]
+            cand = rng.choice(free) if free else base
         if cand is None:
             free = [r for r in reserved if r not in used_names]
             cand = rng.choice(free) if free else base
@@ -104,7 +112,9 @@ def rand_design(rng, profile='small', nops=None, nin=None, ops=None, nregs=None,
             else rng.choice([1, 3, 4, 8])
         aw = rng.choice([1, 2, 3] if profile == 'small' else [1, 2, 3, 5, 9])
         m = MemBlock(bitwidth=dw, addrwidth=aw, name=nm('mem%d' % k), asynchronous=async_mem,
-                     max_read_ports=None, max_write_ports=None)
+                     max_read_ports=rng.choice([None, None, 40]),
+                     # now and then a look-up table: a MemBlock that is only read (contents come from memory_value_map)
+                     max_write_ports=rng.choice([None, None, 41]) if rng.random() > 0.12 else 0)
         d.mems.append(m)
     for k in range(nroms):
         dw = rng.choice([1, 4, 8] if profile == 'small' else [4, 8, 33, 64, 66])
@@ -121,9 +131,12 @@ def rand_design(rng, profile='small', nops=None, nin=None, ops=None, nregs=None,
         else:
             table = tuple(vals)
             data, pad = (lambda a, table=table: table[a]), False
+        # sometimes a single-port ROM that clones itself for every further read port (build_new_roms)
+        clone = rng.random() < 0.3
         m = RomBlock(bitwidth=dw, addrwidth=aw, romdata=data, name=nm('rom%d' % k),
-                     asynchronous=async_mem, max_read_ports=None, pad_with_zeros=pad)
+                     asynchronous=async_mem, max_read_ports=1 if clone else None, build_new_roms=clone, pad_with_zeros=pad)
         d.roms.append(m)
+        d.rom_may_fault = False      # every kind above is total: full data or pad_with_zeros
 
     def pick():
         # favour recent wires a little so that depth grows
@@ -169,6 +182,10 @@ def rand_design(rng, profile='small', nops=None, nin=None, ops=None, nregs=None,
                 w = select(pick()[0], a, b)
             elif op == 'cat':
                 parts = [a, b] + [pick() for _ in range(rng.choice([0, 0, 1, 2]))]
+                if rng.random() < 0.25:
+                    # one wire used several times by the same net (replication)
+                    parts = [a] * rng.randint(2, 4) + ([b] if rng.random() < 0.4 else [])
+                    rng.shuffle(parts)
                 if sum(len(p) for p in parts) > max_total:
                     continue
                 w = concat(*parts)
@@ -201,9 +218,14 @@ def rand_design(rng, profile='small', nops=None, nin=None, ops=None, nregs=None,
                 forms = [lambda: a & c1, lambda: a | c1, lambda: a ^ c1, lambda: a + c1,
                          lambda: c1 - a, lambda: a * Const(rng.getrandbits(2), 2),
                          lambda: a == c1, lambda: a < c1, lambda: select(a[0], c1, a),
+                         # a multiplexer whose select is a constant (either value), data wires or constants
+                         lambda: select(Const(rng.getrandbits(1), 1), a, b), lambda: select(Const(rng.getrandbits(1), 1), c1, a),
+                         lambda: a & Const(0, bw), lambda: a | Const((1 << bw) - 1, bw),
                          lambda: c1.nand(a)]
                 if 'nand' not in ops:
                     forms.pop()
+                else:
+                    forms.append(lambda: a.nand(Const(0, bw)))
                 w = rng.choice(forms)()
             elif op == 'constreg':
                 bw = rng.choice(widths)
@@ -296,6 +318,11 @@ def rand_design(rng, profile='small', nops=None, nin=None, ops=None, nregs=None,
                 pool.append(r2)
                 d.ops_used.append('twinreg')
     for m in d.mems:
+        if m.max_write_ports == 0:
+            d.ops_used.append('readonly-mem')
+            if not any(n.op_param[1] is m for n in working_block().logic_subset('m')):
+                pool.append(as_wires(m[_addr(pick(), m.addrwidth)]))      # every memory of the design is used
+            continue
         for _p in range(rng.choice([1, 1, 2, 3])):
             wa, wd, we = pick(), pick(), pick()
             data = wd[:m.bitwidth] if len(wd) >= m.bitwidth else wd.zero_extended(m.bitwidth)
@@ -305,6 +332,10 @@ def rand_design(rng, profile='small', nops=None, nin=None, ops=None, nregs=None,
                 if rng.random() < 0.3:
                     m[aw_] <<= data      # the same unconditional write twice (distinct Const(1) enables)
                     d.ops_used.append('dupwrite')
+            elif rng.random() < 0.15:
+                # a write port tied off (or tied on) with a constant enable
+                m[_addr(wa, m.addrwidth)] <<= MemBlock.EnabledWrite(data, Const(rng.getrandbits(1), 1))
+                d.ops_used.append('constenable')
             else:
                 m[_addr(wa, m.addrwidth)] <<= MemBlock.EnabledWrite(data, we[0])
     k = 0
@@ -359,6 +390,10 @@ def rand_init(rng, d, with_default=True):
     if with_default and rng.random() < 0.25:
         # a default that is legal for every register without reset and every memory word
         minw = min([len(r) for r in d.regs] + [m.bitwidth for m in d.mems] + [64])
+        if d.mems and rng.random() < 0.4:
+            # ... or only for the registers: a memory read of an unwritten word then shows the default truncated to
+            # the memory's bitwidth (the read port masks it)
+            minw = min([len(r) for r in d.regs] + [64])
         dflt = rng.getrandbits(minw) if minw < 64 else rng.choice([1, 5])
         if minw == 1:
             dflt = rng.choice([0, 1])
